@@ -174,6 +174,28 @@ func genC04(r *Rand, tier string) *Case {
 		return c04Flood(phase, t[r.Intn(len(t))], int64(r.PickInt(100000, 400000, 1000000)), limit)
 	}
 	switch {
+	case kind == 0 && r.Chance(1, 4): // TLS negotiation broken off by the peer
+		// a server with certificates answers 'S'; the peer then sends a TLS alert
+		// (a client that rejects the certificate), a record of another kind, a
+		// truncated ClientHello or junk instead of completing the handshake
+		c.Server.TLS = "certs"
+		c.Server.Auth = ""
+		c.Server.Validator = nil
+		var rec []byte
+		switch r.Intn(5) {
+		case 0:
+			rec = []byte{0x15, 0x03, 0x01, 0x00, 0x02, 0x02, byte(r.PickInt(0x2a, 0x30, 0x28, 0x46, 0x00))} // fatal alert
+		case 1:
+			rec = []byte{0x15, 0x03, 0x03, 0x00, 0x02, 0x01, 0x00} // warning: close_notify
+		case 2:
+			rec = append([]byte{0x16, 0x03, 0x01, 0x00, byte(r.PickInt(5, 40, 200)), 0x01}, r.Bytes(r.PickInt(0, 3, 30))...) // truncated ClientHello
+		case 3:
+			rec = append([]byte{byte(r.PickInt(0x14, 0x17, 0x18, 0x80)), 0x03, byte(r.Intn(5)), 0x00, 0x03}, r.Bytes(3)...)
+		case 4:
+			rec = r.Bytes(r.PickInt(1, 5, 6, 50))
+		}
+		c.Conns = []ConnCase{{Steps: []Step{{Msgs: []pgwire.FMsg{{K: "ssl"}}}, {Msgs: []pgwire.FMsg{{K: "raw", Data: rec}}}}, Cuts: genCuts(r)}}
+		c.Variant = "tls-negotiation-broken"
 	case kind == 0: // random bytes on a fresh connection
 		c.Conns = []ConnCase{{Steps: []Step{{Msgs: []pgwire.FMsg{{K: "raw", Data: r.Bytes(r.PickInt(1, 4, 8, 9, 30, 200))}}}}, Cuts: genCuts(r)}}
 		c.Variant = "raw-fresh"
@@ -214,6 +236,25 @@ func genC04(r *Rand, tier string) *Case {
 		cc := &c.Conns[0]
 		stall := pgwire.FMsg{K: r.Pick("Q", "P", "B", "d"), S1: "never-finished", S2: "x", Data: []byte("zzzz"), Cut: intp(r.Range(1, 7))}
 		cc.Steps = append(cc.Steps, Step{Msgs: []pgwire.FMsg{stall}})
+		if r.Chance(1, 3) {
+			// the peer stalls before its startup is complete: silent from the start,
+			// a partial length word or packet, silence after a declined SSLRequest
+			su := startupMsg("u", "d")
+			switch r.Intn(5) {
+			case 0:
+				cc.Steps = nil
+			case 1:
+				su.Cut = intp(r.Range(1, 9))
+				cc.Steps = []Step{{Msgs: []pgwire.FMsg{su}}}
+			case 2:
+				cc.Steps = []Step{{Msgs: []pgwire.FMsg{{K: "ssl"}}}}
+			case 3:
+				su.Cut = intp(r.Range(1, 9))
+				cc.Steps = []Step{{Msgs: []pgwire.FMsg{{K: "ssl"}}}, {Msgs: []pgwire.FMsg{su}}}
+			case 4:
+				cc.Steps = []Step{{Msgs: []pgwire.FMsg{{K: "ssl", Cut: intp(r.Range(1, 7))}}}}
+			}
+		}
 		cc.NoEOF = true
 		cc.Cuts = nil
 		c.Variant = "stalled-peer"
@@ -584,7 +625,7 @@ func c04Fixed(tier string) []*Case {
 func init() {
 	register(&Prop{
 		ID: "C04", Level: "fault_enumeration", QuickS: 30, ThoroughS: 480,
-		Rule:       "fault enumeration: for each of a fixed corpus of 38 sessions (generated with fixed seeds over every phase: startup with/without authentication and middleware, SSLRequest declined, CancelRequest, simple and extended queries with failing handlers, COPY text and binary through the row reader, oversized and unknown messages) EVERY transport fault position is enumerated: fail the k-th read (all k), end the input after the n-th byte (all n), fail the k-th write with 0 / 1 / all-but-one bytes accepted (all k); plus enumerated truncations of a Bind and a Query at every byte, Bind value lengths beyond the body, counts 0xFFFF; plus seeded cases: random bytes on a fresh connection and after a valid startup, startup-phase packets with perturbed lengths and protocol versions, generated sessions with one field-level mutation (length word 0-3/L+1/2^31-1/2^32-1, truncation, missing NUL, counts 0xFFFF, value length beyond body, random type byte, 1-4 GiB declared with little sent), hostile texts through ParseParameters, corrupted binary COPY rows, and seeded fault combinations; oracles: the worker process survives (a death is attributed to the recorded case and confirmed alone), the hostile connection is closed and the server issues no further transport operation within the budget, a bystander session accepted afterwards on the same Server is served exactly as the model says and Serve returns nil, per-step allocation stays below 4L+16MiB, a faulted connection's callbacks/output are a prefix of the fault-free ones, nothing is executed for a certainly-malformed message; every case counts as non-trivial; distinct = distinct case content hashes; flood scenarios (enumerated and seeded): 100k-1M body-less messages in COPY, ready and discarding state with bounds on goroutine-stack and live-heap growth",
+		Rule:       "fault enumeration: for each of a fixed corpus of 38 sessions (generated with fixed seeds over every phase: startup with/without authentication and middleware, SSLRequest declined, CancelRequest, simple and extended queries with failing handlers, COPY text and binary through the row reader, oversized and unknown messages) EVERY transport fault position is enumerated: fail the k-th read (all k), end the input after the n-th byte (all n), fail the k-th write with 0 / 1 / all-but-one bytes accepted (all k); plus enumerated truncations of a Bind and a Query at every byte, Bind value lengths beyond the body, counts 0xFFFF; plus seeded cases: random bytes on a fresh connection and after a valid startup, startup-phase packets with perturbed lengths and protocol versions, generated sessions with one field-level mutation (length word 0-3/L+1/2^31-1/2^32-1, truncation, missing NUL, counts 0xFFFF, value length beyond body, random type byte, 1-4 GiB declared with little sent), hostile texts through ParseParameters, corrupted binary COPY rows, and seeded fault combinations; oracles: the worker process survives (a death is attributed to the recorded case and confirmed alone), the hostile connection is closed and the server issues no further transport operation within the budget, a bystander session accepted afterwards on the same Server is served exactly as the model says and Serve returns nil, per-step allocation stays below 4L+16MiB, a faulted connection's callbacks/output are a prefix of the fault-free ones, nothing is executed for a certainly-malformed message; every case counts as TLS negotiation broken off by the peer after 'S' (alert records, truncated ClientHello, other record types, junk); peers that stall before their startup is complete while a bystander connects; non-trivial; distinct = distinct case content hashes; flood scenarios (enumerated and seeded): 100k-1M body-less messages in COPY, ready and discarding state with bounds on goroutine-stack and live-heap growth",
 		Exhaustive: "every read index, input byte offset and write index (x3 accepted-byte counts) of each corpus session; every truncation offset of the handcrafted Bind and Query",
 		Components: e1Components, Assumptions: append(append([]string{}, commonAssumptions...), "allocation failure and Accept errors are not injected (not injectable in Go / no property speaks about them)"),
 		Fixed: c04Fixed, Gen: genC04, Check: checkC04,
